@@ -126,6 +126,10 @@ def build_node(
         def class_method(*args: t.Any, **kwargs: t.Any) -> t.Any:
             return process_method(*args, **kwargs, **(dependencies_default or {}))
 
+    # The method is stored in the class as `process`: a bound method is pickled by the name of its function
+    # (a node with the `process` tag is sent to the process pool), so the function must carry the same name.
+    class_method.__name__ = 'process'
+
     class_name = class_name or f'Generic{node.__name__}'
     created_node = type(
         class_name,
